@@ -340,6 +340,8 @@ func (f *shFlow) cmd(c *eng.ShCmd, st shState) []shResult {
 			for i, w := range words[1:] {
 				if i < 9 {
 					inner = inner.set(strconv.Itoa(i+1), w, true)
+				} else {
+					f.problem(c.Pos, "more than nine arguments for a function that is stepped into")
 				}
 			}
 			var out []shResult
@@ -480,6 +482,44 @@ func (f *shFlow) cmd(c *eng.ShCmd, st shState) []shResult {
 			out = append(out, r)
 		}
 		return out
+	case "for":
+		// a loop over a list that is known completely - literal words, or "$@" inside a function that was stepped
+		// into (its positional parameters are the bound arguments) - is unrolled
+		if vals, ok := f.forList(c, st); ok && c.Body != nil {
+			cur := []shResult{{st: st, status: 1, ev: -1}}
+			var done []shResult
+			for _, v := range vals {
+				var next []shResult
+				for _, s := range cur {
+					s2 := s.st.set(c.Name, v, true)
+					for _, r := range f.list(c.Body, s2) {
+						switch r.out {
+						case "continue":
+							r.out, r.outCmd, r.outArg = "", nil, nil
+							next = append(next, r)
+						case "break":
+							r.out, r.outCmd, r.outArg = "", nil, nil
+							done = append(done, r)
+						case "":
+							next = append(next, r)
+						default:
+							done = append(done, r)
+						}
+					}
+				}
+				cur = next
+				if len(cur)+len(done) > 256 {
+					f.problem(c.Pos, "too many paths through an unrolled `for`")
+					break
+				}
+			}
+			return append(done, cur...)
+		}
+		f.problem(c.Pos, fmt.Sprintf("compound command `%s` is not followed (its effects are unknown)", c.Kind))
+		for _, n := range assignedDeep(c) {
+			st = st.set(n, symVal{{expr: "<assigned in a " + c.Kind + ">"}}, true)
+		}
+		return one(st.with(shEvent{Cmd: c, Kind: "run"}), 0, len(st.events))
 	case "func":
 		f.problem(c.Pos, "function definition inside the analysed code")
 		return one(st, 1, -1)
@@ -513,4 +553,32 @@ func shSoleVar(w *eng.ShWord) (string, bool) {
 		return "", false
 	}
 	return ps[0].Name, true
+}
+
+// forList expands the word list of a `for` when every word is known: a literal (after evaluation in the current
+// environment, without unknown expansions), or "$@" / "${@}" inside a stepped-into function.
+func (f *shFlow) forList(c *eng.ShCmd, st shState) ([]symVal, bool) {
+	var out []symVal
+	for _, w := range c.Words {
+		if name, ok := shSoleVar(w); ok && name == "@" {
+			quoted := len(w.Parts) == 1 && w.Parts[0].Kind == eng.ShDQ
+			if st.depth == 0 || !quoted {
+				return nil, false
+			}
+			for k := 1; k <= 9; k++ {
+				v, has := st.env[strconv.Itoa(k)]
+				if !has {
+					break
+				}
+				out = append(out, v)
+			}
+			continue
+		}
+		v := symEval(w.Parts, st.env)
+		if _, isLit := shLitOf(v); !isLit {
+			return nil, false
+		}
+		out = append(out, v)
+	}
+	return out, true
 }
